@@ -381,11 +381,12 @@ func checkC16(c *Ctx, r *Report) {
 		// auxiliary pairs: every alternative of the text of every write that carries a response or a
 		// '|' - spelled in the format, concatenated in a local, chosen by a phi (ip_h4.go)
 		c16AuxPairs(c, r, fn, ssa.Value(chal))
-		// ;PR line: the one call of writeSecureLoginResponse in sendHandshake or in a helper below it
-		// (g5Occurrences). For a helper the conditions are lifted to its call site: it must be the
-		// only one, and the helper's parameters are bound to the actual arguments (g5Env).
+		// ;PR line: the one write of a text starting with ";PR" in sendHandshake or in a helper below
+		// it (h4rPRWrites; a helper that only formats the value it is given is looked through). For a
+		// helper the conditions are lifted to its call site: it must be the only one, and the helper's
+		// parameters are bound to the actual arguments (g5Env).
 		o := r.Add("C16-reply", where, ";PR response", c.pos(fn.Pos()))
-		prOcc := g5Occurrences(fn, "fbb.writeSecureLoginResponse", 3)
+		prOcc := h4rPRWrites(fn, func(v ssa.Value) bool { _, ok := isResp(v); return ok }) // by the text written (ip_h4r3.go)
 		env := g5Env{}
 		liftWhy := ""
 		if len(prOcc) == 1 {
@@ -414,7 +415,11 @@ func checkC16(c *Ctx, r *Report) {
 			for _, site := range prOcc[0].chain {
 				conds = append(conds, condsAt(site.Block())...)
 			}
-			resp, isR := isResp(ci.Common().Args[1])
+			var resp *ssa.Call
+			isR := false
+			if prOcc[0].resp != nil {
+				resp, isR = isResp(unwrap(prOcc[0].resp))
+			}
 			switch {
 			case !isR:
 				o.Bad("the ;PR line does not carry a secureLoginResponse")
@@ -456,31 +461,16 @@ func checkC16(c *Ctx, r *Report) {
 				}
 			}
 		}
-		if w := c.Func(pkg, "writeSecureLoginResponse"); w != nil {
-			for _, ci := range callsTo(w, false, "fmt.Fprintf") {
-				s, _ := constString(ci.Common().Args[1])
-				r.Check("C16-reply", fnName(w), ";PR line format", c.pos(ci.Pos()), s == ";PR: %s\r", "line is \";PR: <response>\\r\"", "the ;PR line is formatted "+s)
-			}
+		for _, occ := range prOcc {
+			w := occ.write
+			r.Check("C16-reply", fnName(w.Parent()), ";PR line format", c.pos(w.Pos()), occ.exact, "line is \";PR: <response>\\r\"", "the ;PR line is formatted "+occ.text)
 		}
 	}
 	// challenge capture
 	if fn := c.Func(pkg, "(*Session).readHandshake"); fn != nil {
-		found := false
-		eachInstr(fn, func(_ *ssa.BasicBlock, _ int, instr ssa.Instruction) {
-			st, ok := instr.(*ssa.Store)
-			if !ok || !strings.HasSuffix(pathOf(st.Addr), ".SecureChallenge") {
-				return
-			}
-			for _, cd := range condsAt(st.Block()) {
-				if call, ok := cd.V.(*ssa.Call); ok && cd.Truth && callName(&call.Call) == "strings.HasPrefix" {
-					if s, _ := constString(call.Call.Args[1]); s == ";PQ" {
-						if sl, ok := st.Val.(*ssa.Slice); ok && sl.X == call.Call.Args[0] {
-							found = true
-						}
-					}
-				}
-			}
-		})
+		// the store may be made by a helper or method below readHandshake, the slice handed back by
+		// another helper: parameters bound to the arguments, results per return (ip_h4r3.go)
+		found := c16ChallengeCaptured(c, fn)
 		r.Check("C16-reply", fnName(fn), "challenge captured from the ;PQ line", c.pos(fn.Pos()), found,
 			"SecureChallenge is a slice of the line matched by the ;PQ prefix test", "the secure-login challenge is not taken from the ;PQ line")
 	}
@@ -540,33 +530,8 @@ func c16Extra(c *Ctx, r *Report) {
 	if fn := c.Func(pkg, "(*Session).readHandshake"); fn == nil {
 		r.Fail("C16-challenge", "anchor readHandshake not found")
 	} else {
-		isCallOn := func(v ssa.Value, name, arg string) bool {
-			call, ok := v.(*ssa.Call)
-			if !ok || callName(&call.Call) != name {
-				return false
-			}
-			s, _ := constString(call.Call.Args[1])
-			return s == arg
-		}
-		n := 0
-		eachInstr(fn, func(b *ssa.BasicBlock, _ int, in ssa.Instruction) {
-			ifi, ok := in.(*ssa.If)
-			if !ok || !isCallOn(ifi.Cond, "strings.HasSuffix", ">") {
-				return
-			}
-			n++
-			notPQ := false
-			for _, cd := range condsAt(b) {
-				if isCallOn(cd.V, "strings.HasPrefix", ";PQ") && !cd.Truth {
-					notPQ = true
-				}
-			}
-			r.Check("C16-challenge", fnName(fn), "prompt test", c.pos(ifi.Cond.Pos()), notPQ,
-				"made only for lines that are not ;PQ lines", "the prompt test (line ends in '>') is made before the ;PQ test: a challenge ending in '>' is taken for the prompt, no challenge is recorded, no ;PR is sent - and a session without a login callback carries on instead of failing")
-		})
-		if n == 0 {
-			r.Add("C16-challenge", fnName(fn), "prompt test", c.pos(fn.Pos())).Bad("no test of the prompt suffix '>' found in readHandshake (unresolved)")
-		}
+		// every evaluation of the prompt test in the call tree below readHandshake (ip_h4r3.go)
+		c16PromptTests(c, r, fn)
 	}
 }
 
